@@ -34,6 +34,11 @@ CLAIMS = {
         'Tie: score bit pattern of the Flocq model vs kalign_msa_compare on file pairs (each with >= 1 gap); independent Python implementation of the definition as witness oracle.',
    note=TRUST + 'The final 100.0*a/b in binary64 stored to float is executed in the model (Flocq) and compared bit for bit; that a=b yields exactly 100.0f and a<=b a value in [0,100] is checked on every case, not proved. The six counters are internal to the C function: only the score is observed.',
    tech='Coq proof (induction over columns, pairs, canonical sorting) + bit-exact score correspondence'),
+ 'C11': dict(
+   text='PARTIAL. The full statements (bpm_block = sed on the first 1024 pattern symbols; bpm/bpm_256 = sed up to 63/255) are written in Properties_C11.v as Definitions, not yet theorems; proved so far are only basic facts of the specification. '
+        'What decides the property on every run: literal executable models of bpm_block, bpm and bpm_256 (lane-level add256 and 256-bit shift included) are compared with the implementation on both the AVX2 and the scalar build, and the implementation is compared with the extracted specification sed, exhaustively for alphabets {2,3} and small lengths (17k cases) and at random around every multiple of 64 up to the 1024 cap.',
+   note=TRUST + 'Until the Myers block-invariant proof is finished this check is differential testing against an executable specification, labelled as such; category stays proof because the deciding artefacts are the Coq model and specification, but the unbounded claim is NOT established.',
+   tech='executable Coq model + specification, exhaustive-small and boundary-random correspondence (proof of the Myers invariant pending)'),
  'C09': dict(
    text='Theorems C09_defaults/override/explicit_default/mismatch/type_words/cli_defaults over the model of aln_param_init and set_aln_type, for all type constants, both kinds and ALL binary32 bit patterns of the three penalties; '
         'the parameter tables inside the theorems are regenerated from the built library and README.md on every run; the hand-written switch/override logic is tied by an exhaustive correspondence over 3 kinds x 8 types x value set^3 and by CLI runs observed through the PARAMS hook.',
